@@ -12,6 +12,8 @@ CONSTANTS
   NDis = 1
   NVec = 0
   NCbSend = 0
+  HostKinds = {"Empty", "PollRecv", "SemSet", "SemGet", "SemClr", "SemMask"}
+  NDspMask = 0
   TrackLockset = FALSE
 SPECIFICATION FairSpec
 INVARIANTS ValuesOK NoDeadlock
